@@ -320,7 +320,7 @@ class bspline(object):
             B-spline values.
         """
         bkpt = self.breakpoints[self.mask]
-        vnikx = np.zeros((x.size, self.nord), dtype=np.promote_types(x.dtype, np.float32))
+        vnikx = np.zeros((x.size, self.nord), dtype=(np.float64 if x.dtype.kind in 'iub' else x.dtype))
         deltap = vnikx.copy()
         deltam = vnikx.copy()
         j = 0
@@ -374,7 +374,7 @@ class bspline(object):
                 raise ValueError('Must specify lower and upper if action is set.')
         else:
             action, lower, upper = self.action(xwork, x2=x2work)
-        yfit = np.zeros(x.shape, dtype=np.promote_types(x.dtype, np.float32))
+        yfit = np.zeros(x.shape, dtype=(np.float64 if x.dtype.kind in 'iub' else x.dtype))
         bw = self.npoly * self.nord
         spot = np.arange(bw, dtype='i4')
         goodbk = self.mask.nonzero()[0]
